@@ -20,6 +20,7 @@ CONSTANTS
   ConnErrIsFatal = FALSE
   WakeSkipsAcceptAll = FALSE
   PauseKeepsRegistered = FALSE
+  RejoinPausedNoAvail = FALSE
 SPECIFICATION Spec
 VIEW View
 PROPERTIES Steps
